@@ -1,10 +1,11 @@
 """C06 What the model says is what the printed text says (re-parse + structural digest after syntax-preserving histories)."""
-from .. import common, gen, ops, walker, storemodel
+from .. import valuestate, common, gen, ops, walker, storemodel
 from autobean_refactor import models
 
 CASES = {'quick': 4000, 'thorough': 60000}
+SMALL_BLOCKS = 4      # runner: every 4th case keeps its stores in 2..10-token blocks
 GATES = {
-    'quick': {'evaluations': 8000, 'steps_with_visible_change': 6500, 'op_kinds_seen': 60, 'crlf_documents': 300},
+    'quick': {'cases_in_small_blocks': 50, 'evaluations': 8000, 'steps_with_visible_change': 6500, 'op_kinds_seen': 60, 'crlf_documents': 300},
     'thorough': {'evaluations': 200000, 'op_kinds_seen': 70},
 }
 RULE = ('case = one accepted generated document and a history of 1..12 (thorough ..60) *syntax-preserving* catalog operations (the '
@@ -12,7 +13,10 @@ RULE = ('case = one accepted generated document and a history of 1..12 (thorough
         'slot, and signed numbers placed among custom values, which docs/special/numbers.md tells users to parenthesise). One '
         'evaluation = after a step, parse(print(file)) must succeed and its structural digest (nested (class, field, token text); '
         'zero-width tokens and block comments dropped, inline comments right-stripped, IGNORED lines stripped of trailing blanks/CR) '
-        'must equal the digest of the edited in-memory model, and the sequences of comment lines must agree. Non-trivial = the step '
+        'must equal the digest of the edited in-memory model, the sequences of comment lines must agree, and both trees must read the same '
+        'through the public read API (beanmon.valuestate: every non-callable public attribute of every model - value properties, list, '
+        'string and mapping views, raw node properties, custom getters; all of them read once before the first edit so that whatever the '
+        'library caches is cached; decimals compared as numbers, nodes by digest; attribution, spacing and indent_by excluded). Non-trivial = the step '
         'changed a visible token; distinct = hash(text, op-log prefix).')
 ASSUMPTIONS = ['comment lines are compared as a sequence (adjacent comments of one indentation class re-lex as one token)',
                'indent_by, zero-width tokens and comment attribution are not part of the digest']
@@ -37,6 +41,12 @@ def compare(col, f, text, log, extra):
         return ('digest-differs', 'the re-parsed document differs in structure/values from the edited model: ' + _first_diff(d1, d2), wit)
     if _clines(f) != _clines(g):
         return ('comment-lines-differ', 'the comment lines of the re-parsed document differ', wit)
+    # ... and the same through the public read API (views, value properties, custom getters - whatever is cached behind them)
+    dv = valuestate.first_difference(valuestate.value_state(f), valuestate.value_state(g))
+    col.count('value_state_comparisons')
+    if dv:
+        return (f'value-state-differs:{dv[1]}.{dv[2]}', f'{dv[0]}.{dv[2]} reads {str(dv[3])[:160]} on the edited model, {str(dv[4])[:160]} on the '
+                're-parsed document', wit)
     return None
 
 
@@ -79,6 +89,16 @@ def _unindented_comment_in_indented_list(m):
     return False
 
 
+def _custom_juxtaposition(f):
+    for d in f.raw_directives:
+        if isinstance(d, models.Custom):
+            vs = list(d.raw_values)
+            for a, b in zip(vs, vs[1:]):
+                if isinstance(a, models.NumberExpr) and common.pr(b).lstrip()[:1] in ('+', '-'):
+                    return True
+    return False
+
+
 def respace(f):
     """The same document with a blank inserted wherever the *input* abuts two visible non-spacing tokens."""
     out = []
@@ -102,6 +122,7 @@ def history(col, text, f, hseed, lf, count):
     g = ops.Generator(_corpus, r, syntax_only=True, index_mode='grid')
     nsteps = r.choice([1, 2, 4, 12]) if col.tier == 'quick' else r.choice([2, 6, 12, 30, 60])
     log = []
+    valuestate.value_state(f)       # every view and cached getter has been read once before the first edit
     for s in range(nsteps):
         op = g.next_op(f)
         if op is None:
@@ -116,6 +137,12 @@ def history(col, text, f, hseed, lf, count):
                 col.skip(f'step raised {type(e).__name__}; history ends (C19/C10 decide refusals)')
             return None, log
         log.append(op.desc)
+        if _custom_juxtaposition(f):
+            # docs/special/numbers.md: adding, removing or moving `custom` arguments can put a signed number right after a number;
+            # the user has to parenthesise then. Such a history has left the syntax-preserving set.
+            if count:
+                col.skip('custom values: signed number now follows a number (documented: user must parenthesise)')
+            return None, log
         if count:
             col.count('kind:' + op.kind)
             col.ev()
